@@ -15,7 +15,7 @@ CLAIMED = {
              "segmentation, against the strict RFC 9112 reading (specs/HttpStream.tla); the same families are emitted "
              "by TLC, concretized to bytes (several spellings per line class) and pushed through the real "
              "gunicorn.http.RequestParser; every recorded trace is judged by TLC against specs/HttpTrace.tla."
-             " The same streams are also served through the real handle() of the sync / gthread / async workers; the requests that reach the application (parse offset, body) are judged by the same monitor.",
+             " The same streams are also served through the real handle() of the sync / gthread / async workers; the requests that reach the application (parse offset, body) are judged by the same monitor. Heads without continuation lines are also run under permit_obsolete_folding (what the switch does not relax stays refused).",
         design_ref="DESIGN.md 4 C01, 9",
         technique="TLA+ model checking (TLC) of a parser model vs. a strict-reading oracle + TLC trace validation of real parser runs"),
     "C06": dict(
@@ -23,7 +23,7 @@ CLAIMED = {
              "the terminal observation is pinned to a function of the stream alone. Real parser: each concretized stream is "
              "run whole, byte-by-byte, with every single cut, sampled pairs and random cuts, through IterUnreader and "
              "SocketUnreader; real-scale streams with delimiters at 8190..8193; TLC judges equality of observations per stream."
-             " Worker-level runs (gthread / async handle() with keep-alive hand-backs) are digested per segmentation as well.",
+             " Worker-level runs (gthread / async handle() with keep-alive hand-backs) are digested per segmentation as well. The segmentation runs are repeated under every documented parser switch and around the buffer caps that small or switched-off limits give.",
         design_ref="DESIGN.md 4 C06, 9",
         technique="TLA+ model checking of all segmentations + TLC-validated differential traces of the real parser"),
     "C12": dict(
@@ -31,7 +31,7 @@ CLAIMED = {
              "specs/HttpParse.tla over padded-line, many-field and never-ending stream families with small limits x all "
              "segmentations; the real parser is run with limit settings {0, small, default, max, out-of-range} on inputs at, "
              "just under and just over each limit and on lazy endless sources in each buffering phase (request line, header "
-             "block, chunk-size line, trailer block); TLC judges every record against specs/HttpLimitsTrace.tla.",
+             "block, chunk-size line, trailer block); TLC judges every record against specs/HttpLimitsTrace.tla. Cases include limit_request_line = 0 with lines beyond the hard maximum and over-long fields whose names the header_map drops.",
         design_ref="DESIGN.md 4 C12, 9",
         technique="TLA+ model checking of limit/buffer invariants + TLC-validated boundary and endless-stream records from the real parser"),
     "C07": dict(
@@ -42,7 +42,7 @@ CLAIMED = {
              "(sizes around 1024/8192, Content-Length and chunked framings, 1-byte chunks, chunk boundaries at block "
              "boundaries, random segmentations, pipelined follower) are judged by TLC against specs/BodyTrace.tla, "
              "including the offset at which the next request is parsed."
-             " Worker-level runs (late body tails on kept-alive connections through gthread / async handle()) use the same monitor.",
+             " Worker-level runs (late body tails on kept-alive connections through gthread / async handle()) use the same monitor. A share of the runs is repeated in an interpreter started with -O; the same programs run inside real servers of the four classes (slow segments, a default socket timeout set by the application).",
         design_ref="DESIGN.md 4 C07, 9",
         technique="TLA+ model checking of the wsgi.input algorithm vs. file semantics + TLC trace validation of real call sequences"),
     "C02": dict(
@@ -52,7 +52,7 @@ CLAIMED = {
              "empty chunks) against ExactlyOneHead, BodyEqualsAppOutputCutToCL, ConsistentDelimiting, ChunkedOnlyWhenAllowed, "
              "KeepAliveOnlyIfSafe, NeverExceedsContentLength. TLC -simulate behaviours and seeded larger programs are served by "
              "the real handle() of SyncWorker, ThreadWorker (+finish_request) and AsyncWorker on scripted sockets; the bytes the "
-             "client received are read by an independent strict response reader and judged by TLC (specs/ResponseTrace.tla).",
+             "client received are read by an independent strict response reader and judged by TLC (specs/ResponseTrace.tla). Exchanges include request bodies read before / during / after the response, Expect: 100-continue, folded Connection headers under permit_obsolete_folding, short-reading file-like objects and --no-sendfile.",
         design_ref="DESIGN.md 4 C02, 9",
         technique="TLA+ model checking of the response writer + TLC trace validation of exchanges served by the real worker handle()"),
     "C09": dict(
@@ -61,7 +61,7 @@ CLAIMED = {
              "RefusedBeforeAnyByte, HeadIsExactly, HopByHopNotForwarded, SecondCallRules; simulated and seeded cases are "
              "expanded to concrete strings (every CTL byte, CR/LF/NUL placements, non-latin-1, hop-by-hop names in case "
              "variants), passed to the real start_response inside the real handle() of the three worker families, and the "
-             "received head is judged line by line by TLC (specs/RespHeadTrace.tla).",
+             "received head is judged line by line by TLC (specs/RespHeadTrace.tla). Request-parsing switches are varied for the response checks; a real threaded server answers 8 clients at once (specs/ConcHeadTrace.tla: no line or body of another response).",
         design_ref="DESIGN.md 4 C09, 9",
         technique="TLA+ model checking of the header-acceptance decision table + TLC trace validation of real response heads"),
     "C05": dict(
@@ -72,7 +72,7 @@ CLAIMED = {
              "and a dead socket at every written byte, are served by the real handle() of the three worker families; the same "
              "worker object then serves a normal connection; wire (strict response reader) and worker state are judged by TLC "
              "against specs/ConnTrace.tla."
-             " PROXY-protocol peers (listed / unlisted) and, on real processes with TLS listeners, peers that do not complete the handshake (lazy and on-connect handshake) are included.",
+             " PROXY-protocol peers (listed / unlisted) and, on real processes with TLS listeners, peers that do not complete the handshake (lazy and on-connect handshake) are included. Real servers include TLS listeners with on-connect handshakes for all four classes, clients that leave in the middle of a response (FIN / RST) and servers started with --daemon.",
         design_ref="DESIGN.md 4 C05, 9",
         technique="TLA+ model checking of the error-handling ladders + TLC trace validation of hostile connections served by the real handle()"),
     "C19": dict(
@@ -93,7 +93,7 @@ CLAIMED = {
              "x forwarder_headers x header_map x secure_scheme_headers x header lists; proxy_protocol x proxy_allow_ips x PROXY "
              "line x request index x worker class). The same cases are emitted by TLC, turned into real Config objects and byte "
              "requests, served by the real handle() (two requests on one connection for index 2), and the environ the application "
-             "saw is judged by TLC (specs/HeaderMapTrace.tla): envelope, then equality with the model (drift).",
+             "saw is judged by TLC (specs/HeaderMapTrace.tla): envelope, then equality with the model (drift). The TLS dimension (scheme https unless a permitted forwarder says otherwise) is product T of HeaderMap.tla.",
         design_ref="DESIGN.md 4 C08, 9",
         technique="TLA+ decision-table model + envelope checked by TLC on the full product; TLC-emitted cases replayed into the real handle(); TLC judges observed environs"),
     "C15": dict(
@@ -103,7 +103,7 @@ CLAIMED = {
              "symbols, checks the reference's sanity invariants and emits the cases; each is concretized (several spellings per "
              "symbol), served through the real parser and wsgi.create via handle(), and the environ (PATH_INFO, QUERY_STRING, "
              "RAW_URI, REQUEST_METHOD, SERVER_PROTOCOL, SCRIPT_NAME, HTTP_* with repeated fields, CONTENT_TYPE/LENGTH) is "
-             "abstracted back to symbols and judged by TLC (specs/EnvironTrace.tla).",
+             "abstracted back to symbols and judged by TLC (specs/EnvironTrace.tla). Target forms include absolute-form targets with an empty path and SCRIPT_NAME given by the header of a permitted forwarder.",
         design_ref="DESIGN.md 4 C15, 9",
         technique="TLA+ executable reference of the CGI mapping; TLC-enumerated targets replayed into the real code; TLC judges observed environs",
         note="Transcribed-function use of the technique (DESIGN.md 6): class-complete enumeration and an independent reference, no interleavings. " ),
@@ -116,7 +116,7 @@ CLAIMED = {
              "--max-requests-jitter J for sync / gthread / gevent / eventlet under sequential and concurrent clients, every "
              "response naming the serving pid, process table read after a quiescent tail); TLC judges every run against "
              "specs/RecycleTrace.tla."
-             " Real-process modes: sequential, concurrent, burst (queued jobs), parked keep-alive connection, long request draining past --timeout, two listeners, keep-alive 0, body-less answers on a keep-alive connection, unix-socket binds; Recycle.tla models keep-alive connections (WorkAfterLimitBounded).",
+             " Real-process modes: sequential, concurrent, burst (queued jobs), parked keep-alive connection, long request draining past --timeout, two listeners, keep-alive 0, body-less answers on a keep-alive connection, unix-socket binds, a master that is not scheduled while both workers reach the limit, the WSGI exc_info pattern at the limit; Recycle.tla models keep-alive connections (WorkAfterLimitBounded).",
         design_ref="DESIGN.md 4 C18, 9",
         technique="TLA+ model checking of the recycling rule + TLC trace validation of in-process worker loops and real gunicorn processes"),
     "C14": dict(
@@ -128,7 +128,7 @@ CLAIMED = {
              "run from the working tree under a background client load; pid files, socket file, process table and refused "
              "connections at quiescent checkpoints are validated by TLC against specs/UpgradeTrace.tla, whose ops drive the "
              "Upgrade actions (clauses on observed values = verdict; difference from the model state = drift)."
-             " Histories include WINCH / HUP on a daemonized old master (back-out, then the next upgrade), a new release that cannot boot, runs without a configured pid file, --timeout 0, and servers started from a symlinked release directory that is switched before every USR2.",
+             " Histories include WINCH / HUP on a daemonized old master (back-out, then the next upgrade), a new release that cannot boot, runs without a configured pid file, --timeout 0, servers started from a symlinked release directory that is switched before every USR2, HUP while an upgrade is pending, and worker turnover during a pending upgrade (MasterLeftWithoutWorkers).",
         design_ref="DESIGN.md 4 C14, 9",
         technique="TLA+ model checking of the two-master protocol + TLC trace validation of real upgrade histories"),
     "C16": dict(
@@ -160,7 +160,7 @@ CLAIMED = {
              "Worker.init_process / set_owner_process over a recording fake kernel and in real forked processes as root "
              "(www-data, nobody, uid without passwd entry), plus real gunicorn servers (initial, respawned and post-HUP "
              "workers read from /proc); TLC judges each record (specs/PrivsTrace.tla)."
-             " Real servers include settings given through GUNICORN_CMD_ARGS, the workers of a USR2-started master and a HUP with an invalid configuration file; cases also run with the worker timeout switched off, with a capability missing (fake kernel) and with ids beyond 2^31.",
+             " Real servers include settings given through GUNICORN_CMD_ARGS, the workers of a USR2-started master and a HUP with an invalid configuration file; cases also run with the worker timeout switched off, with a capability missing (fake kernel), with ids beyond 2^31, with a master whose real and effective gid differ (rootsplit), and with settings read from ./gunicorn.conf.py across a HUP.",
         design_ref="DESIGN.md 4 C20, 9",
         technique="TLA+ model of kernel credential semantics checked on the full product + TLC trace validation of real credential drops"),
     "C13": dict(
@@ -172,7 +172,7 @@ CLAIMED = {
              "ReapedWhenExpired under fairness. TLC -simulate behaviours are replayed into the REAL ThreadWorker.run() over a "
              "scripted selector / sockets / executor with virtual time (projected state compared after every step), plus "
              "scripted scenarios and seeded random schedules; all runs are judged by TLC against specs/GThreadTrace.tla."
-             " Real gthread processes (segmented requests on kept-alive connections, wall-clock keep-alive, pipelined requests, every connection slot taken beyond --timeout) are judged against specs/GThreadRealTrace.tla.",
+             " Real gthread processes (segmented requests on kept-alive connections, wall-clock keep-alive, pipelined requests, every connection slot taken beyond --timeout, two workers on a listener inherited in blocking mode) are judged against specs/GThreadRealTrace.tla.",
         design_ref="DESIGN.md 4 C13, 9",
         technique="TLA+ model checking (safety + liveness) of the threaded worker + TLC trace validation of the real ThreadWorker.run() under scheduled interleavings"),
     "C03": dict(
@@ -184,7 +184,7 @@ CLAIMED = {
              "time/signal replaced inside gunicorn.arbiter only; real WorkerTmp heartbeat files in virtual time); TLC -simulate "
              "behaviours are replayed (projected state compared after every master operation), explicit dangerous windows "
              "and seeded random schedules are recorded; every run is judged by TLC against specs/ArbiterTrace.tla."
-             " Real servers whose workers cannot boot are judged against specs/BootTrace.tla.",
+             " Real servers whose workers cannot boot are judged against specs/BootTrace.tla. Real servers whose workers cannot boot (application import, post_fork, post_worker_init) are judged by specs/BootTrace.tla.",
         design_ref="DESIGN.md 4 C03, 9",
         technique="TLA+ model checking (safety + liveness) of the master loop with an asynchronous SIGCHLD handler + TLC trace validation of the real Arbiter.run() on a simulated kernel"),
     "C04": dict(
@@ -196,7 +196,7 @@ CLAIMED = {
              "before / after the listener is closed -, application running, response partly written, keep-alive idle), "
              "applications that finish / overrun / never finish, optional TTIN+TTOU before the stop; exit status and time, "
              "survivors, listening socket, pid and socket files read at the moment the master is gone; judged by TLC against "
-             "specs/ShutdownTrace.tla.",
+             "specs/ShutdownTrace.tla. Real shutdowns include --reuse-port, --reload, saturated connection pools and stop signals during a slow application import.",
         design_ref="DESIGN.md 4 C04, 9",
         technique="TLA+ model checking of the shutdown path + TLC trace validation of the real Arbiter on a simulated kernel and of real-process shutdowns"),
     "C10": dict(
@@ -207,7 +207,7 @@ CLAIMED = {
              "a load of short, long and streaming requests during 1-3 HUPs that change worker count and a marker variable "
              "(refused / cut / complete per request, old workers gone, new count, new marker); the real SyncWorker.run() loop "
              "in-process with TERM delivered at every system-call boundary (every connection taken off the listen queue must be "
-             "answered); judged by TLC against specs/ReloadTrace.tla.",
+             "answered); judged by TLC against specs/ReloadTrace.tla. Real reloads include a configuration file named relative to the start directory; line-level injection follows a HUP on the simulated kernel (clause MasterExitedUnasked).",
         design_ref="DESIGN.md 4 C10, 9",
         technique="TLA+ model checking of reload + TLC trace validation of the real Arbiter on a simulated kernel, of real-process reloads under load and of the real sync loop with TERM injected at every system call"),
     "C11": dict(
@@ -216,7 +216,7 @@ CLAIMED = {
              "simulated kernel in virtual time, judged by specs/ArbiterTrace.tla. Worker side on real processes (--timeout 2): "
              "blocked application, SIGSTOP, SIGABRT ignored, with and without a master that is woken several times per second; "
              "healthy workers idle, busy with back-to-back sub-timeout requests, busy on several listeners, busy with a never "
-             "empty listen queue, for sync / gthread / gevent (thorough: eventlet); judged by TLC against specs/TimeoutTrace.tla.",
+             "empty listen queue, for sync / gthread / gevent (thorough: eventlet); judged by TLC against specs/TimeoutTrace.tla. Real scenarios include a listening socket inherited in blocking mode and workers draining after a reload; the simulated kernel lets an aborted worker dump core.",
         design_ref="DESIGN.md 4 C11, 9",
         technique="TLA+ timed model checking of the timeout scan + TLC trace validation of the real Arbiter in virtual time and of real-process hang / healthy scenarios"),
 }
